@@ -140,10 +140,75 @@ def run(chk):
     if calls != [16] or s != bytes((37 + i) % 256 for i in range(16)):
         chk.violation('secret', 'secret:urandom', {'case': {'urandom_calls': calls}, 'observed': s.hex() if isinstance(s, bytes) else repr(s)},
                       'generate_shared_secret does not return 16 fresh bytes from os.urandom (calls: %r)' % (calls,))
+    login_level(chk)
     chk.sample('stream', {'secret': jobs[0][0].hex(), 'plaintext': jobs[0][1].hex()[:40], 'ciphertext': b''.join(bytes(x) for x in exp_out[0]).hex()[:40]}, k=1)
     chk.assumptions += ['AES itself is validated (FIPS-197 vector by the kernel, random blocks and whole streams against the `cryptography` library), not proved against a standard',
                         'RSA is the library\'s; the model covers the PKCS#1 v1.5 block format and its removal, with RSA invertibility as a hypothesis',
                         '"fresh random" is checked as "16 bytes drawn from os.urandom once"; the quality of the OS generator is outside any model']
+
+
+def login_level(chk):
+    """the cipher as the connection installs it: fresh secret per login, one continuous stream whether the
+    bytes are taken through file_object.read or socket.recv"""
+    import c10, proto, struct
+    from minecraft.networking.connection import Connection
+    rng, th = chk.rng, chk.tier == 'thorough'
+    for trial in range(12 if th else 4):
+        pv = rng.choice([340, 578, 757])
+        ids = proto.Ids(pv)
+        secrets = [bytes(rng.randrange(256) for _ in range(16)) for _ in range(3)]
+        nlogins = 3 if trial % 2 else 2
+        servers, plains = [], []
+        for k in range(nlogins):
+            token = bytes(rng.randrange(256) for _ in range(rng.choice([1, 4, 64])))
+            steps = [('enc', '-', token), ('success',), ('ka', 1000 + k)]
+            frames, cut = c10.build_server(ids, steps)
+            extra = bytes(rng.randrange(256) for _ in range(rng.choice([40, 300])))      # bytes the harness reads itself afterwards
+            plains.append((b''.join(frames), cut, extra))
+        cts = run_model([('mc_encrypt', [secrets[k], [plains[k][0][plains[k][1]:] + plains[k][2]]]) for k in range(nlogins)])
+        for k in range(nlogins):
+            data = plains[k][0][:plains[k][1]] + bytes(cts[k][0])
+            n_extra = len(plains[k][2])
+            servers.append(sim.Server([data[:-n_extra], data[-n_extra:]], end='idle'))
+        net = sim.Net(servers, urandom=secrets).install()
+        what = None
+        try:
+            conn = Connection('localhost', 25565, username='user', allowed_versions={pv})
+            for k in range(nlogins):
+                # hold back the extra bytes until the thread is idle: keep them out of the script for the run
+                held = servers[k].chunks.pop() if len(servers[k].chunks) > 1 else None
+                conn.connect()
+                net.run_threads(conn)
+                if held is not None:
+                    servers[k].chunks.append(held)
+                # the harness now takes the remaining stream through BOTH wrappers alternately
+                got = b''
+                want = plains[k][2]
+                guard = 0
+                while len(got) < len(want) and guard < 10000:
+                    guard += 1
+                    n = rng.choice([1, 3, 16, 50])
+                    got += conn.file_object.read(n) if guard % 2 else conn.socket.recv(n)
+                chk.count('login-cipher', [pv, k, secrets[k].hex(), want.hex()[:80]], True)
+                if got != want:
+                    j = next((x for x, (a, b) in enumerate(zip(got, want)) if a != b), None)
+                    what = 'login %d: bytes taken alternately through file_object.read and socket.recv do not decrypt as one continuous stream (first difference at byte %s)' % (k, j)
+                    break
+                # the client side of this login must be keyed by THIS login's secret
+                sends = servers[k].sends
+                dec = run_model([('mc_decrypt', [secrets[k], sends[6:]])])[0]
+                tail = b''.join(bytes(x) for x in dec)
+                exp = proto.frame(ids.sb_keep_alive, struct.pack('>q', 1000 + k) if ids.keep_alive_long else proto.varint(1000 + k))
+                if tail != exp:
+                    what = 'login %d: traffic after the encryption response is not encrypted under the secret drawn for this login' % k
+                    break
+                conn.disconnect()
+            if what is None and net.urandom_calls != [16] * nlogins:
+                what = 'os.urandom calls over %d logins: %r (16 fresh bytes per login expected)' % (nlogins, net.urandom_calls)
+        finally:
+            net.uninstall()
+        if what:
+            chk.violation('login-cipher', 'login-cipher:%d' % trial, {'case': {'proto': pv, 'logins': nlogins, 'secrets': [x.hex() for x in secrets[:nlogins]]}, 'observed': what}, what)
 
 
 def replay(chk, rp):
